@@ -3,6 +3,7 @@ package props
 import (
 	"bytes"
 	"context"
+	"crypto/sha256"
 	"encoding/base64"
 	"errors"
 	"fmt"
@@ -807,5 +808,57 @@ func c18Purity(w *mon.W) {
 			}})
 		}
 	}
+	// the stream writers on slow sinks, many at once: bytes and CID are those of the buffered call
+	r := w.Rng
+	for i := 0; i < w.Pick(10, 24); i++ {
+		typ := []string{"dlg", "inv"}[i%2]
+		iss := gen.Ed(i) // deterministic signatures: bytes can be compared
+		spec := gen.RandomSpec(r, typ, gen.SpecOpts{Issuer: iss})
+		tk, err := spec.Build()
+		if err != nil {
+			continue
+		}
+		sealed, c0, err := tk.ToSealed(iss.Priv)
+		if err != nil {
+			continue
+		}
+		js, _ := tk.ToDagJson(iss.Priv)
+		group := 1000 + i
+		mk := func(name string, want string, f func(o io.Writer) (cid.Cid, error)) {
+			thunks = append(thunks, mon.Thunk{Label: name, Group: group, Desc: fmt.Sprintf("%s by %s into a slow writer", typ, iss.Name), F: func() string {
+				y := &yieldWriter{}
+				c, err := f(y)
+				if err != nil {
+					return "error: " + err.Error()
+				}
+				return fmt.Sprintf("cid=%s bytes=%x", c, sha256.Sum256(y.buf.Bytes()))
+			}, Check: func(out string) string {
+				if out == want {
+					return ""
+				}
+				return "the buffered call gives " + want
+			}})
+		}
+		mk("ToSealedWriter", fmt.Sprintf("cid=%s bytes=%x", c0, sha256.Sum256(sealed)), func(o io.Writer) (cid.Cid, error) { return tk.ToSealedWriter(o, iss.Priv) })
+		mk("ToDagCborWriter", fmt.Sprintf("cid=%s bytes=%x", cid.Undef, sha256.Sum256(sealed)), func(o io.Writer) (cid.Cid, error) { return cid.Undef, tk.ToDagCborWriter(o, iss.Priv) })
+		mk("ToDagJsonWriter", fmt.Sprintf("cid=%s bytes=%x", cid.Undef, sha256.Sum256(js)), func(o io.Writer) (cid.Cid, error) { return cid.Undef, tk.ToDagJsonWriter(o, iss.Priv) })
+	}
 	w.Purity("stream-reads", thunks, pG(w), pR(w))
+}
+
+// yieldWriter is a slow sink: it yields the processor (now and then sleeps a little) at every
+// write, so that other goroutines run while a streaming call is half-way.
+type yieldWriter struct {
+	buf bytes.Buffer
+	n   int
+}
+
+func (y *yieldWriter) Write(p []byte) (int, error) {
+	y.n++
+	if y.n%8 == 0 {
+		time.Sleep(20 * time.Microsecond)
+	} else {
+		runtime.Gosched()
+	}
+	return y.buf.Write(p)
 }
